@@ -267,6 +267,9 @@ func (w *World) Serve() {
 	}()
 }
 
+// ServeDone is closed when Serve has returned.
+func (w *World) ServeDone() <-chan struct{} { return w.serveDone }
+
 // ServeReturned reports whether Serve has returned, and its error.
 func (w *World) ServeReturned() (bool, error) {
 	if !w.served {
